@@ -216,7 +216,7 @@ def explore(ref, params=None, *, workers=None, max_paths=200000, max_wall_s=600,
                     time.sleep(0.005)
     rep.wall_s = time.perf_counter() - t0
     rep.complete = (
-        rep.capped is None and not rep.errors and rep.inconclusive_branches == 0
+        rep.capped is None and not rep.errors
         and not any(k for k in rep.aborts if k in ("max-decisions",))
     )
     return rep
